@@ -168,6 +168,22 @@ def groups():
     return g
 
 
+def listing_fixpoint(a):
+    """a: an assembled program. Its printed listing must re-assemble to the same instructions and the same listing."""
+    listing = [t for (_a, _h), t, _s in a.sim.get_instruction_memory_entries()]
+    try:
+        b = asm.assemble("\n".join(listing) + "\n")
+        listing2 = [t for (_a, _h), t, _s in b.sim.get_instruction_memory_entries()]
+        if listing2 != listing:
+            return f"listing {listing} re-assembles to the listing {listing2}"
+        if b.fields != a.fields:
+            k = next(i for i, (x, y) in enumerate(zip(a.fields, b.fields)) if x != y)
+            return f"listing {listing}: instruction {k} is {a.fields[k]} but its printed text re-assembles to {b.fields[k]}"
+        return None
+    except Exception as e:  # noqa
+        return f"listing {listing} is rejected: {type(e).__name__}: {e!r}"
+
+
 def listing_fixpoint_shard(shard):
     """For programs of the C04 corpus: listing -> text -> load -> listing is a fixed point."""
     L, first = shard
@@ -180,16 +196,9 @@ def listing_fixpoint_shard(shard):
             a = asm.assemble(text)
         except Exception:  # noqa  (C04 decides whether the text must assemble)
             continue
-        listing = [t for (_a, _h), t, _s in a.sim.get_instruction_memory_entries()]
-        text2 = "\n".join(listing) + "\n"
         p.evaluations += 1
         p.nontrivial += 1
-        try:
-            b = asm.assemble(text2)
-            listing2 = [t for (_a, _h), t, _s in b.sim.get_instruction_memory_entries()]
-            d = None if listing2 == listing and b.fields == a.fields else f"listing {listing} re-assembles to {listing2}"
-        except Exception as e:  # noqa
-            d = f"listing {listing} is rejected: {type(e).__name__}: {e!r}"
+        d = listing_fixpoint(a)
         if d:
             p.violation(dict(oracle="listing-fixpoint", field="differs"), dict(kind="listing", text=text), f"{text!r}: {d}", size=(L, len(text)))
     return p
@@ -205,15 +214,8 @@ def replay(case):
         specs = [filler] * (addr // 4) + [spec]
         roundtrip_batch(specs, p, "replay", 1)
     elif case["kind"] == "listing":
-        a = asm.assemble(case["text"])
-        listing = [t for (_a, _h), t, _s in a.sim.get_instruction_memory_entries()]
-        try:
-            b = asm.assemble("\n".join(listing) + "\n")
-            if [t for (_a, _h), t, _s in b.sim.get_instruction_memory_entries()] != listing:
-                return [(dict(oracle="listing-fixpoint", field="differs"), "listing is not a fixed point")]
-        except Exception as e:  # noqa
-            return [(dict(oracle="listing-fixpoint", field="differs"), repr(e))]
-        return []
+        d = listing_fixpoint(asm.assemble(case["text"]))
+        return [(dict(oracle="listing-fixpoint", field="differs"), d)] if d else []
     else:
         roundtrip_batch([tuple(s) for s in case["specs"]], p, "replay", 1)
     return [(lst[0][1], lst[0][3]) for _k, (n, lst) in p.viol.items()]
